@@ -65,6 +65,14 @@ def worker(a):
             return r
         try:
             n += 2
+            # a reference cell that differs in the seventh digit is used first (results discarded): a value remembered per
+            # (rounded) cell must not leak into the calls on cell0
+            nb = [x * (1 + 3e-7) if j < 3 else x for j, x in enumerate(cell0)]
+            for f_ in (mod.epsilon_to_b, mod.epsilon_to_b_old):
+                f_([0.0] * 6, nb)
+            mod.b_to_epsilon(Bs, nb)
+            mod.b_to_epsilon_old(Bs, nb)
+            mod.form_b_mat(nb)
             if not L.close(mod.form_b_mat(cell0), B0s):
                 out.append("form_b_mat(cell) differs from the Cholesky factor of the cell's reciprocal metric (%s)" % tag)
             if not L.close(mod.epsilon_to_b([0.0] * 6, cell0), B0s):
